@@ -535,7 +535,7 @@ func rlpByteMutate(r *rand.Rand, in []byte) []byte {
 	case 4:
 		if len(out) > 0 {
 			o := r.Intn(len(out))
-			out = insertAt(out, o, bombs[15+r.Intn(6)])
+			out = insertAt(out, o, rlpBombs[r.Intn(len(rlpBombs))])
 		}
 	default:
 		if len(out) > 1 {
